@@ -127,7 +127,9 @@ theorem createPlan_list_check {ws : List PyVal} {dt : TypeArg ⊕ DType} {n : Na
     split at h
     · simp at h
     · simp at h
-    · split at h <;> simp at h
+    · split at h
+      · simp at h
+      · split at h <;> simp at h
     · simp at h
 
 theorem createPlan_vals {inp vals : Input} {dt : TypeArg ⊕ DType} {n : Nat}
@@ -164,8 +166,35 @@ theorem createPlan_vals {inp vals : Input} {dt : TypeArg ⊕ DType} {n : Nat}
     · simp at h
     · split at h
       · simp at h
-      · simp at h; exact h.2.2.symm
+      · split at h
+        · simp at h; exact h.2.2.symm
+        · simp at h
     · simp at h
+
+/-- an array that passed `create_property`'s own dtype comparison passes the setter's check -/
+theorem createPlan_nd_check {a : ADType} {s : List Nat} {dd : List Cell} {dt : TypeArg ⊕ DType} {n : Nat}
+    {vals : Input} (h : createPlan (.ndarray a s dd) = .ok (dt, n, vals)) :
+    ∃ d m, dt = .inr d ∧ s = [m + 1] ∧ vals = .ndarray a s dd ∧
+      checkNewValueTypes d (.ndarray a s dd) = .ok () := by
+  cases s with
+  | nil => simp [createPlan] at h
+  | cons m ms =>
+    cases m with
+    | zero => simp [createPlan] at h
+    | succ m =>
+      cases ms with
+      | cons k ks => simp [createPlan] at h
+      | nil =>
+        simp only [createPlan] at h
+        cases hc : getDtypeCls a.elemClass with
+        | error e => simp [hc] at h
+        | ok d =>
+          simp only [hc] at h
+          by_cases hm : arrMatches a d = true
+          · simp [hm] at h
+            refine ⟨d, m, h.1.symm, rfl, h.2.2.symm, ?_⟩
+            simp [checkNewValueTypes, hm]
+          · simp [hm] at h
 
 theorem asListData_list (inp : Input) : ∃ ws, inp.asListData = .list ws := by
   cases inp <;> exact ⟨_, rfl⟩
@@ -208,11 +237,11 @@ theorem createProperty_cases (st : State) (name : Str) (inp : Input) :
           exact ⟨p, hp, by simp [hne]⟩
       · left; exact ⟨.valueError, by simp [createProperty, hdup, hplan, hname]⟩
 
-/-- `create_property` that raises anything but ValueError / OverflowError created nothing — unless the
-input was a numpy array (whose dtype the final `prop.values = vals` may still refuse) -/
+/-- `create_property` that raises anything but ValueError / OverflowError (that is: TypeError,
+DuplicateName, …) created nothing -/
 theorem createProperty_refused {st : State} {name : Str} {inp : Input} {e : Err}
-    (h : (createProperty st name inp).2 = .error e) (h1 : e ≠ .valueError) (h2 : e ≠ .overflowError)
-    (hnd : ∀ a s d, inp ≠ .ndarray a s d) : (createProperty st name inp).1 = st := by
+    (h : (createProperty st name inp).2 = .error e) (h1 : e ≠ .valueError) (h2 : e ≠ .overflowError) :
+    (createProperty st name inp).1 = st := by
   rcases createProperty_cases st name inp with ⟨e', h'⟩ | ⟨dt, n, vals, d, hplan, hd, _, _, h'⟩
   · rw [h']
   · exfalso
@@ -238,7 +267,15 @@ theorem createProperty_refused {st : State} {name : Str} {inp : Input} {e : Err}
           rcases hcase with rfl | rfl
           · exact h2 rfl
           · exact h1 rfl
-    · exact hnd a s dd hi
+    · subst hi
+      obtain ⟨d', m, hdt, hs, hv, hchk⟩ := createPlan_nd_check hplan
+      subst hdt hs hv
+      simp [resolveDtype] at hd
+      subst hd
+      generalize hp0 : newProp st name d' n = p0 at h
+      have hdp : p0.dtype = d' := by rw [← hp0]; rfl
+      rw [← hdp] at hchk
+      simp [setValues, hchk] at h
 
 /-- whatever `create_property` does, the properties that existed stay, in order, in front -/
 theorem createProperty_prefix (st : State) (name : Str) (inp : Input) :
